@@ -21,6 +21,11 @@ if use_eval:
     atexit.register(lambda: shutil.rmtree(snap, ignore_errors=True))
 def one(d):
     name = os.path.basename(d); pid = name.split('-')[0]
+    try:
+        # a change whose effect belongs to another property's statement is judged by that property's check
+        pid = json.load(open(f'{d}/meta.json')).get('judged_by', pid)
+    except Exception:
+        pass
     tool = 'eval_patch.sh' if use_eval else 'try_patch.sh'
     env = dict(os.environ)
     if snap: env['VERIF_SIM'] = snap + '/sim'
